@@ -176,6 +176,9 @@ def eval_response(F, X, e, table=None, depth=0):
                 out.append(("Continue", d.get("payload")))
             else:
                 out.append(("Opaque", a))
+        elif a[0] == "call" and depth < 4 and unwrap_alternatives(F, X, a) is not None:
+            for alt in unwrap_alternatives(F, X, a):
+                out += eval_response(F, X, alt, table, depth + 1)
         elif a[0] == "call" and depth < 4:
             r = inline_call(F, X, a)
             if r is not None:
@@ -185,6 +188,40 @@ def eval_response(F, X, e, table=None, depth=0):
         else:
             out.append(("Opaque", a))
     return out
+
+
+_UNWRAP_OR = {"std::option::Option::unwrap_or": "Some", "std::result::Result::unwrap_or": "Ok",
+              "std::option::Option::unwrap_or_else": "Some", "std::result::Result::unwrap_or_else": "Ok",
+              "std::option::Option::unwrap_or_default": "Some", "std::result::Result::unwrap_or_default": "Ok"}
+
+
+def closure_return(F, X, c):
+    """return-value expression of a closure value `c` (('agg','closure:D',..)); None if unknown"""
+    for a in alts(strip(c)):
+        if a[0] == "agg" and a[1].startswith("closure:"):
+            cb = F.by_cdef.get(a[1][len("closure:"):])
+            if cb is not None:
+                return strip(X.local(cb, 0))
+        if a[0] == "fnitem":
+            cb = F.by_cdef.get(a[1])
+            if cb is not None and cb.kind in ("Fn", "AssocFn"):
+                return strip(X.local(cb, 0))
+    return None
+
+
+def unwrap_alternatives(F, X, a):
+    """`o.unwrap_or(d)` / `o.unwrap_or_else(f)` / `o.unwrap_or_default()` written as the match they stand for:
+    [payload of o, fallback value]; None for any other expression"""
+    if a[0] != "call" or a[1] not in _UNWRAP_OR or not a[2]:
+        return None
+    v = _UNWRAP_OR[a[1]]
+    first = ("field", "0", "", v, a[2][0])
+    if a[1].endswith("unwrap_or"):
+        return [first, a[2][1]] if len(a[2]) > 1 else None
+    if a[1].endswith("unwrap_or_else"):
+        r = closure_return(F, X, a[2][1]) if len(a[2]) > 1 else None
+        return [first, r] if r is not None else None
+    return [first, ("call", "std::default::Default::default", (), a[3], a[4])]
 
 
 # ---------------------------------------------------------------------------- caller-side parameter expansion
@@ -302,6 +339,35 @@ def inline_pure(F, X, e, depth=3, keep=()):
             return inline_pure(F, X, r, depth - 1, keep)
         return x
     return map_expr(e, f)
+
+
+def alternatives_with_facts(F, X, e, depth=3, keep=()):
+    """[(alternative, [(fact expr, variants)])]: the alternatives of value `e`, each with the Option/Result variant facts
+    that hold at the place where that alternative is produced (`match x { Some(_) => A, None => B }` gives A with
+    (x, Some) and B with (x, None)); calls of local pure helpers are looked through, their parameters bound to the
+    arguments, so that `let v = match ..` inline and `v: helper(..)` give the same answer."""
+    out = []
+    for a in alts(strip(e)):
+        done = False
+        if a[0] == "call" and depth > 0:
+            name = a[4].resolved or a[1]
+            cb = F.by_cdef.get(name)
+            fi = F.fns.get(name)
+            kept = keep(name) if callable(keep) else (name in keep)
+            if cb is not None and cb.kind in ("Fn", "AssocFn") and not derive_like(cb) and not (fi and fi.get("async")) and not kept:
+                r = strip(X.local(cb, 0))
+                for ra, facts in alternatives_with_facts(F, X, r, depth - 1, keep):
+                    out.append((strip(subst_params(ra, cb.cdef, a[2])), [(strip(subst_params(fe, cb.cdef, a[2])), t) for fe, t in facts]))
+                done = True
+        if not done:
+            site = a[4] if a[0] == "agg" else (a[3] if a[0] in ("call",) else (a[4] if a[0] == "bin" else None))
+            facts = []
+            if isinstance(site, tuple) and len(site) >= 2 and isinstance(site[1], int) and site[1] >= 0 and site[0] in F.by_cdef:
+                sb = F.by_cdef[site[0]]
+                if site[1] < len(sb.blocks):
+                    facts = [(fe, t) for fe, t, _c in lib.variant_facts(sb, X, site[1])]
+            out.append((a, facts))
+    return out
 
 
 def derive_like(b):
